@@ -356,6 +356,7 @@ type c02Obs struct {
 	groups      []string
 	methods     []string
 	krb         []string // realm, principal
+	otherNames  []string // every further identity in the certificate, tagged
 	krbOK       bool
 	verifyErr   string
 	parseErr    string
@@ -396,6 +397,74 @@ func c02GeneralStrings(der []byte) []string {
 	}
 	walk(der)
 	return out
+}
+
+// every identity an X.509 certificate carries beside ONE common name, the organisations and the PKINIT other-name:
+// further subject attributes, a second common name, and every entry of the subject alternative name
+func c02OtherNames(xc *x509.Certificate) []string {
+	var l []string
+	cn := 0
+	for _, a := range xc.Subject.Names {
+		switch {
+		case a.Type.Equal(asn1.ObjectIdentifier{2, 5, 4, 3}):
+			cn++
+			if cn > 1 {
+				l = append(l, fmt.Sprintf("cn#%d:%v", cn, a.Value))
+			}
+		case a.Type.Equal(asn1.ObjectIdentifier{2, 5, 4, 10}): // organisation: compared as d_orgs
+		default:
+			l = append(l, fmt.Sprintf("subject-attribute:%s=%v", a.Type, a.Value))
+		}
+	}
+	for _, e := range xc.Extensions {
+		if !e.Id.Equal(asn1.ObjectIdentifier{2, 5, 29, 17}) {
+			continue
+		}
+		var seq asn1.RawValue
+		if _, err := asn1.Unmarshal(e.Value, &seq); err != nil {
+			l = append(l, "san-undecodable")
+			continue
+		}
+		rest := seq.Bytes
+		pkinit := 0
+		for len(rest) > 0 {
+			var gn asn1.RawValue
+			var err error
+			rest, err = asn1.Unmarshal(rest, &gn)
+			if err != nil {
+				l = append(l, "san-undecodable")
+				break
+			}
+			switch gn.Tag {
+			case 0: // otherName: the type-id comes first
+				var oid asn1.ObjectIdentifier
+				if _, err := asn1.Unmarshal(gn.Bytes, &oid); err != nil {
+					l = append(l, "othername:?")
+				} else if oid.Equal(asn1.ObjectIdentifier{1, 3, 6, 1, 5, 2, 2}) {
+					pkinit++
+					if pkinit > 1 {
+						l = append(l, fmt.Sprintf("othername:pkinit#%d", pkinit))
+					}
+				} else {
+					l = append(l, "othername:"+oid.String())
+				}
+			case 1:
+				l = append(l, "email:"+string(gn.Bytes))
+			case 2:
+				l = append(l, "dns:"+string(gn.Bytes))
+			case 4:
+				l = append(l, "dirname")
+			case 6:
+				l = append(l, "uri:"+string(gn.Bytes))
+			case 7:
+				l = append(l, fmt.Sprintf("ip:%x", gn.Bytes))
+			default:
+				l = append(l, fmt.Sprintf("generalname#%d", gn.Tag))
+			}
+		}
+	}
+	sort.Strings(l)
+	return l
 }
 
 type c02Published struct {
@@ -459,9 +528,10 @@ func c02Decode(body []byte, status int, keys []*c02Key, pubd *c02Published) c02O
 		o.keyid = sc.KeyId
 		o.userType = sc.CertType == ssh.UserCert
 		o.exts = sc.Permissions.Extensions
-		if len(sc.Permissions.CriticalOptions) > 0 {
-			o.parseErr = "critical options present"
+		for k, val := range sc.Permissions.CriticalOptions {
+			o.otherNames = append(o.otherNames, "critical:"+k+"="+val)
 		}
+		sort.Strings(o.otherNames)
 		for i, k := range keys {
 			sp, _ := ssh.NewPublicKey(k.pub)
 			if bytes.Equal(sp.Marshal(), sc.Key.Marshal()) {
@@ -504,6 +574,7 @@ func c02Decode(body []byte, status int, keys []*c02Key, pubd *c02Published) c02O
 	}
 	o.orgs = append([]string{}, xc.Subject.Organization...)
 	sort.Strings(o.orgs)
+	o.otherNames = c02OtherNames(xc)
 	for _, e := range xc.Extensions {
 		switch {
 		case e.Id.Equal(asn1.ObjectIdentifier{1, 3, 6, 1, 4, 1, 9586, 100, 7, 2}):
@@ -668,7 +739,7 @@ func TestVerif_C02(t *testing.T) {
 		judge := func(cs c02Case) {
 			o := cs.obs
 			d := map[string]interface{}{"configuration": v.name, "user": cs.user, "url_name": cs.target, "type": c01Types[cs.typ], "key": keys[cs.key].name, "addGroups": cs.addGroups}
-			ob := map[string]interface{}{"status": o.status, "names": o.names, "key_index": o.keyIdx, "signer": o.signer, "extensions": o.exts, "verify_error": o.verifyErr}
+			ob := map[string]interface{}{"status": o.status, "names": o.names, "key_index": o.keyIdx, "signer": o.signer, "extensions": o.exts, "verify_error": o.verifyErr, "other_names": o.otherNames}
 			shape := fmt.Sprintf("%s:%s", v.name, c01Types[cs.typ])
 			if !o.issued {
 				if o.parseErr != "" {
@@ -683,6 +754,10 @@ func TestVerif_C02(t *testing.T) {
 			if len(o.names) != 1 || o.names[0] != cs.user {
 				hit("wrong-name:"+shape, "the certificate names exactly the authenticated user",
 					fmt.Sprintf("%s: session of %q, /certgen/%s type=%s -> names %q", v.name, cs.user, cs.target, c01Types[cs.typ], o.names), d, ob)
+			}
+			if len(o.otherNames) > 0 {
+				hit("extra-names:"+shape, "the certificate names exactly the authenticated user: no further principal, critical option, subject attribute or subject-alternative-name entry",
+					fmt.Sprintf("%s: session of %q, /certgen/%s type=%s -> names %q and also %q", v.name, cs.user, cs.target, c01Types[cs.typ], o.names, o.otherNames), d, ob)
 			}
 			if o.keyIdx != cs.key {
 				hit("wrong-key:"+shape, "the certificate certifies exactly the submitted key", fmt.Sprintf("%s: submitted %s, certified key index %d", v.name, keys[cs.key].name, o.keyIdx), d, ob)
@@ -877,7 +952,7 @@ func TestVerif_C02(t *testing.T) {
 		sb.WriteString(fmt.Sprintf("Definition tpl_%d : list (bs * bs) := %s.\n", vi, tplCoq(v.templates)))
 	}
 	sb.WriteString("Definition mk (ed : bool) (extra : list N) (tpl : list (bs * bs)) (realm : option bs) (exp : list (bs * option bs)) (g m : option (list bs)) (u tg : bs) (ty : N) (k : option (N * bool)) (ag : bool) (o : observed) : c02case :=\n  {| k_host := " + coqBS(host) + "; k_ed_ca := ed; k_extra := extra; k_templates := tpl; k_realm := realm; k_expansions := exp; k_groups := g; k_methods := m; k_user := u; k_target := tg; k_type := ty; k_key := k; k_add_groups := ag; k_obs := o |}.\n")
-	sb.WriteString("Definition ob (issued err ssh : bool) (names : list bs) (keyid : bs) (key : N) (ut ca ec ep : bool) (ex : list (bs * bs)) (sg : N) (orgs gr me : list bs) (krb : option (bs * bs)) : observed :=\n  {| o_issued := issued; o_error := err; o_ssh := ssh; o_names := names; o_keyid := keyid; o_key := key; o_user_type := ut; o_is_ca := ca; o_eku_client := ec; o_eku_pkinit := ep; o_exts := ex; o_signer := sg; o_orgs := orgs; o_groups := gr; o_methods := me; o_krb := krb |}.\n")
+	sb.WriteString("Definition ob (issued err ssh : bool) (names : list bs) (keyid : bs) (key : N) (ut ca ec ep : bool) (ex : list (bs * bs)) (sg : N) (orgs gr me : list bs) (krb : option (bs * bs)) (other : list bs) : observed :=\n  {| o_issued := issued; o_error := err; o_ssh := ssh; o_names := names; o_keyid := keyid; o_key := key; o_user_type := ut; o_is_ca := ca; o_eku_client := ec; o_eku_pkinit := ep; o_exts := ex; o_signer := sg; o_orgs := orgs; o_groups := gr; o_methods := me; o_krb := krb; o_other_names := other |}.\n")
 	// the shell-expansion oracle per (configuration, user), shared by the cases of that user: every template
 	// string -> its expansion, None when the expander rejects it for this user
 	expName := map[string]string{}
@@ -935,15 +1010,15 @@ func TestVerif_C02(t *testing.T) {
 		if i == len(cases)-1 {
 			sep = ""
 		}
-		sb.WriteString(fmt.Sprintf(" mk %s %s tpl_%d %s %s %s %s %s %s %d %s %s\n   (ob %s %s %s %s %s %d %s %s %s %s %s %d %s %s %s %s)%s\n",
+		sb.WriteString(fmt.Sprintf(" mk %s %s tpl_%d %s %s %s %s %s %s %d %s %s\n   (ob %s %s %s %s %s %d %s %s %s %s %s %d %s %s %s %s %s)%s\n",
 			coqBool(v.edCA), v.extraCoq(), cs.variant, realm, expName[fmt.Sprintf("%d|%s", cs.variant, cs.user)],
 			coqOptBSList(c02ExpectedGroups(v, cs.user), true), coqOptBSList(c02ExpectedMethods(v, cs.user), true),
 			coqBS(cs.user), coqBS(cs.target), cs.typ, keyLit, coqBool(cs.addGroups),
 			coqBool(o.issued), coqBool(o.status >= 400), coqBool(o.ssh), coqBSList(o.names), coqBS(o.keyid), o.keyIdx,
 			coqBool(o.userType), coqBool(o.isCA), coqBool(o.ekuClient), coqBool(o.ekuPkinit), coqPairs(o.exts), o.signer,
-			coqBSList(o.orgs), coqBSList(o.groups), coqBSList(o.methods), krb, sep))
-		idx.WriteString(fmt.Sprintf("%d\tconfiguration=%s user=%q url=%q type=%s key=%s addGroups=%v -> status=%d issued=%v names=%q key#%d signer=%d exts=%q orgs=%q groups=%q krb=%q\n",
-			i, v.name, cs.user, cs.target, c01Types[cs.typ], k.name, cs.addGroups, o.status, o.issued, o.names, o.keyIdx, o.signer, o.exts, o.orgs, o.groups, o.krb))
+			coqBSList(o.orgs), coqBSList(o.groups), coqBSList(o.methods), krb, coqBSList(o.otherNames), sep))
+		idx.WriteString(fmt.Sprintf("%d\tconfiguration=%s user=%q url=%q type=%s key=%s addGroups=%v -> status=%d issued=%v names=%q key#%d signer=%d exts=%q orgs=%q groups=%q krb=%q other_names=%q\n",
+			i, v.name, cs.user, cs.target, c01Types[cs.typ], k.name, cs.addGroups, o.status, o.issued, o.names, o.keyIdx, o.signer, o.exts, o.orgs, o.groups, o.krb, o.otherNames))
 	}
 	sb.WriteString("].\nDefinition c02_diffv := Eval vm_compute in c02_diffv_from cases 0.\n")
 	sb.WriteString("Definition c02_mismatches := Eval vm_compute in map fst c02_diffv.\nPrint c02_mismatches.\n")
